@@ -32,7 +32,7 @@ SPEC = dict(
     thorough=dict(cases=48000, len=80, shards=16),
     nontrivial=nontrivial,
     rule="cases = (85%) timed cluster histories on 2-5 real RedisPubsubPeers in one process: node start, refresh ticks of the real "
-         "Ready() goroutine (hand-fired ticker), graceful stop (real stop()), crash, restarts under a new instance id, every published "
+         "Ready() goroutine (hand-fired ticker), graceful stop (real stop()), crash, restarts under a new instance id, transient publish failures (pubfail: the pubsub returns an error for the next k Publish calls; 30% of histories), the hand-fired ticker honouring the period the code gives it (NewTicker / Reset), every published "
          "message delivered to every running node's real listen callback after a harness-chosen delay in [0,d] (0 and d over-weighted; "
          "order across messages arbitrary), GetPeers of the nodes, and the list last seen by a callback registered with RegisterUpdatedPeersCallback, observed after every step and at the exact expiry instants (+1 ns); "
          "25% of them 'chaos' (lost / late / duplicated deliveries, skipped refreshes, junk and old-format messages, odd ids) where only "
